@@ -215,6 +215,18 @@ class SymInterp(Interp):
                 if isinstance(base, Obj):
                     base.fields[e["l"]["m"]] = self.eval(e["r"], env)
                     return None
+            if e["l"]["k"] == "index":
+                base = self.eval(e["l"]["e"], env)
+                idx = self.eval(e["l"]["i"], env)
+                if isinstance(base, (list, dict)) and isinstance(idx, int):
+                    v = self.eval(e["r"], env)
+                    if isinstance(base, list) and not (0 <= idx < len(base)):
+                        raise Panic("index %d out of bounds (len %d) at line %s" % (idx, len(base), e["ln"]))
+                    base[idx] = v
+                    return None
+            if e["l"]["k"] == "un" and e["l"]["op"] == "*" and e["l"]["e"]["k"] == "path":
+                env.assign(e["l"]["e"]["p"], self.eval(e["r"], env))
+                return None
             raise CannotEstablish("assignment target %s" % canon(e["l"]))
         if k == "bin" and e["op"] in COMPOUND:
             cur = self.eval(e["l"], env)
@@ -226,6 +238,15 @@ class SymInterp(Interp):
                 base = self.eval(e["l"]["e"], env)
                 if isinstance(base, Obj):
                     base.fields[e["l"]["m"]] = new
+                    return None
+            if e["l"]["k"] == "un" and e["l"]["op"] == "*" and e["l"]["e"]["k"] == "path":
+                env.assign(e["l"]["e"]["p"], new)
+                return None
+            if e["l"]["k"] == "index":
+                base = self.eval(e["l"]["e"], env)
+                idx = self.eval(e["l"]["i"], env)
+                if isinstance(base, (list, dict)) and isinstance(idx, int):
+                    base[idx] = new
                     return None
             raise CannotEstablish("compound assignment target %s" % canon(e["l"]))
         if k == "for":
@@ -270,6 +291,30 @@ class SymInterp(Interp):
             raise _Continue(e.get("label"))
         if k == "array":
             return [self.eval(x, env) for x in e["e"]]
+        if k == "repeat":
+            n = self.eval(e["n"], env)
+            if not isinstance(n, int):
+                raise CannotEstablish("array repeat count %r" % (n,))
+            return [self.eval(e["e"], env) for _ in range(n)]
+        if k == "range":
+            lo = self.eval(e["lo"], env) if e.get("lo") is not None else 0
+            hi = self.eval(e["hi"], env) if e.get("hi") is not None else None
+            if isinstance(lo, int) and isinstance(hi, int):
+                return list(range(lo, hi + (1 if e.get("incl") else 0)))
+            return ("range", lo, hi)
+        if k == "index":
+            b = self.eval(e["e"], env)
+            i = self.eval(e["i"], env)
+            if isinstance(b, list) and isinstance(i, int):
+                if not (0 <= i < len(b)):
+                    raise Panic("index %d out of bounds (len %d) at line %s" % (i, len(b), e["ln"]))
+                return b[i]
+            if isinstance(b, list) and isinstance(i, tuple) and i and i[0] == "range":
+                lo = i[1] if isinstance(i[1], int) else 0
+                hi = i[2] if isinstance(i[2], int) else len(b)
+                return b[lo:hi]
+            if isinstance(b, list) and isinstance(i, list):
+                return [b[j] for j in i]
         if k == "closure":
             return ("closure", e, env)
         if k == "paren":
